@@ -23,7 +23,8 @@ Ranges     == {"default", "invalid", "exhausted"}
 Opens      == {"after", "before"}
 
 (* cors: the unprotected path enables CORS (its preflight handling must not open the protected one) *)
-Cases == [url : URLs, oauth : OAuths, placement : Placements, ptype : PTypes, lua : BOOLEAN, range : Ranges, open : Opens, cors : BOOLEAN]
+Cases == [url : URLs, oauth : OAuths, placement : Placements, ptype : PTypes, lua : BOOLEAN, range : Ranges, open : Opens, cors : BOOLEAN,
+          pubauth : BOOLEAN]     \* the other path of the backend declares an auth-url of its own
 
 SeqT(t) == [i \in 1..Len(t) |-> t[i]]
 
